@@ -280,6 +280,12 @@ pub fn run(ctx: &Ctx) -> (Spec, Report) {
             1 => vec![("TYPESHARE_VERIF_ORDER".to_string(), "rev".to_string())],
             _ => vec![("TYPESHARE_VERIF_ORDER".to_string(), format!("seed:{}", rng.below(1000)))],
         };
+        // a quarter of the runs name the crates one by one on the command line, the offending one after a clean sibling
+        // whose name it begins with (`victim`, `victim_crate`): every directory given is walked
+        let one_by_one = rng.chance(1, 4);
+        if one_by_one {
+            files.push(SrcFile { path: "src_root/victim/src/lib.rs".into(), source: "#[typeshare]\npub struct BystanderV { pub z: u8 }\n".into() });
+        }
         write_tree(&root, &files);
         let out = if multi { root.join("out_dir") } else { root.join(format!("out.{}", lang.ext())) };
         let mut before: Vec<(String, Vec<u8>, i64, u64)> = vec![];
@@ -309,10 +315,15 @@ pub fn run(ctx: &Ctx) -> (Spec, Report) {
         let cfg = LangCfg::basic(lang);
         let log = root.join("strace.log");
         let src_abs = root.join("src_root");
-        let args = cli_args(lang, &cfg, multi, &out, &[src_abs.to_str().unwrap()]);
+        let crate_dirs: Vec<String> = ["victim", "victim_crate", "aaa_first", "zzz_last"].iter().map(|c| src_abs.join(c)).filter(|d| d.is_dir()).map(|d| d.to_string_lossy().into_owned()).collect();
+        let dirs: Vec<&str> = if one_by_one { crate_dirs.iter().map(|d| d.as_str()).collect() } else { vec![src_abs.to_str().unwrap()] };
+        let args = cli_args(lang, &cfg, multi, &out, &dirs);
         let o = run_bin(BinRun { cli: &cli, args: args.clone(), env: order_env.clone(), cwd: &root, strace: Some(log.clone()), wall_limit: Duration::from_secs(30) });
         rep.eval(1);
         rep.count("cli_runs_under_strace", 1);
+        if one_by_one {
+            rep.count("cli_runs_with_the_crates_named_one_by_one", 1);
+        }
         let events = parse_log(&log);
         rep.count("syscall_events_logged", events.len() as u64);
         let mods = modifications_under(&events, out.to_str().unwrap());
